@@ -224,7 +224,7 @@ def files_case(rec, hub, rng, tier, d, tmpdir, i):
     d.parameters = [p for p in d.parameters if len(p["letters"]) > 0]
     dimdefs, flows, stocks, params = SY.fd_definitions(fd, d)
     definition = fd.MFADefinition(dimensions=dimdefs, processes=d.processes, flows=flows, stocks=stocks, parameters=params)
-    route = ["csv", "xlsx-named-sheets", "xlsx-first-sheet", "data_reader", "csv", "user-written-reader"][i % 6]
+    route = ["csv", "xlsx-named-sheets", "xlsx-first-sheet", "data_reader", "csv", "user-written-reader"][(2 * (i // 3) + (i % 3 == 2)) % 6]  # files cases run for i % 3 in (1, 2): every route comes up
     xlsx = route.startswith("xlsx")
     ext = "xlsx" if xlsx else "csv"
     dim_files, par_files, dim_sheets, par_sheets = {}, {}, {}, {}
@@ -323,6 +323,22 @@ def files_case(rec, hub, rng, tier, d, tmpdir, i):
                 except Exception:
                     pass
             reader = fd.CompoundDataReader(dimension_reader=dreader, parameter_reader=fd.CSVParameterReader(parameter_files=par_files))
+            if i % 8 in (1, 5):
+                # the SAME reader object first serves another definition that declares the same dimension NAMES (same files) under other
+                # letters and as text; each system gets its dimensions as ITS definition declares them
+                ls_ = [l for l, n, it, dt in d.dims]
+                rot_ = dict(zip(ls_, ls_[1:] + ls_[:1]))
+                other_def = fd.MFADefinition(dimensions=[fd.DimensionDefinition(name=n, letter=rot_[l], dtype=str) for l, n, it, dt in d.dims], processes=d.processes, flows=flows, stocks=[], parameters=[])
+                rec.event(MB, sig=f"reader-serves-two-definitions|{len(ls_)}", cls="data_reader|same-reader-for-two-definitions-with-the-same-dimension-names")
+                try:
+                    first_sys = fd.MFASystem.from_data_reader(other_def, reader)
+                except Exception:
+                    first_sys = None
+                if first_sys is not None:
+                    got_ = {dm.name: (dm.letter, dm.dtype) for dm in first_sys.dims}
+                    want_ = {n: (rot_[l], str) for l, n, it, dt in d.dims}
+                    if got_ != want_:
+                        rec.violation(MB, "system-built-by-a-reused-reader-has-other-dimensions-than-its-definition", {"got": repr(got_)[:300], "want": repr(want_)[:300]})
             mfa = fd.MFASystem.from_data_reader(definition, reader)
     except Exception as e:
         rec.event(MB, sig=f"{route}|raised", cls=f"{route}|raised")
